@@ -508,6 +508,9 @@ func (p *player) applySet(o Op) {
 			w.Obj = nil
 		} else {
 			c := *o.Obj
+			if c.B == nil {
+				c.B = []byte{}
+			}
 			w.Obj = &c
 		}
 	case "items":
@@ -579,6 +582,15 @@ func (p *player) play(i int, o Op) {
 		p.w.SetFail(o.Field, o.N, o.Mode)
 		p.rec.add(Event{Kind: "touch", Field: o.Field})
 		p.w.Touch(o.Field, false)
+	case "proceedhold":
+		n := o.N
+		if n <= 0 {
+			n = 1
+		}
+		p.rec.ArmProceed(n)
+		return
+	case "proceedrelease":
+		p.rec.ReleaseProceed()
 	case "mwhold":
 		n := o.N
 		if n <= 0 {
@@ -588,6 +600,7 @@ func (p *player) play(i int, o Op) {
 		return
 	case "mwrelease":
 		p.w.ReleaseMiddleware()
+		p.rec.ReleaseProceed()
 	case "awaitrun":
 		// wait (briefly) until one more computation has completed than before the previous message was fed
 		deadline := time.Now().Add(400 * time.Millisecond)
@@ -725,7 +738,7 @@ func RunCase(c Case, timeout time.Duration) (res *Result) {
 		conn.ServeJSONSocket()
 	}()
 	for i, o := range c.Ops {
-		if p.closed && (o.Op != "set" && o.Op != "fail" && o.Op != "release" && o.Op != "cancel") {
+		if p.closed && (o.Op != "set" && o.Op != "fail" && o.Op != "release" && o.Op != "cancel" && o.Op != "proceedrelease" && o.Op != "mwrelease") {
 			continue
 		}
 		p.play(i, o)
